@@ -56,6 +56,10 @@ def run(R):
                      "division has a non-zero constant divisor or is dominated by a test of the divisor against zero (weights may be "
                      "0 or 1 exactly: a quotient by `1 - p` is NaN for a certain seed and silently drops its derivative)")
     r5_r6(R)
+    R.rule("C07-R7", "budget exhaustion propagates: in every budgeted operation of the manager the failure edge of a budgeted step never leads to "
+                     "an Ok return - an operation interrupted part-way reports exhaustion instead of handing back a partially built diagram")
+    import c08
+    c08.r5(R, rule="C07-R7", file_suffix="sdd.rs", err_types=("SddBudgetError",), floor=20)
     R.rule("C07-R4", "budget closure: no unbudgeted mutating manager operation is reachable from a try_* operation")
     adt = R.anchor("C07-R1", "adt SddManager", prog.adt(MGR))
     if not adt:
